@@ -1,1 +1,99 @@
-(* C14 stub: to be written *)
+(* C14 — norms of a state matrix (K = C) and the small language of REAL operators whose
+   coefficient arrays are the GENERATED ones (Gen/Transition.v, Gen/Evolution.v).
+
+   [norm2 s]      = sum_{k=-n..n} 1/2|F+(k)|^2 + 1/2|F-(k)|^2 + |Z(k)|^2      (the physical norm, squared)
+   [code_norm2 s] = sum_{k=-n..n} |F-(k)|^2 + |Z(k)|^2                         (utils.get_norm squared:
+                                     xp.sum(xp.abs(states[..., 1:]) ** 2, axis=(-2, -1)))
+   [dev2 s]       = norm2 of (states - equilibrium)
+   Sums over the window of phase states are [sumZ] of Spec/Synth.v at the real-number scalar
+   instance [Rops] (conjugation = identity). *)
+From Coq Require Import Reals ZArith List Bool.
+From Coquelicot Require Import Coquelicot.
+From EPG Require Import Scalar State Ops CInst Synth Views WfProof Transition Evolution CoefPhys.
+From EPG.Model Require Import Diffusion.
+Import ListNotations.
+Local Open Scope R_scope.
+
+(* ---- the reals as a scalar instance ---- *)
+Definition Reqb (x y : R) : bool := if Req_EM_T x y then true else false.
+Definition Rops : ScalOps := mkScalOps R 0 1 Rplus Rmult Rminus Ropp (fun x => x) Reqb.
+
+Definition rsum (lo : Z) (n : nat) (f : Z -> R) : R := sumZ Rops lo n f.
+(* sum over the phase states k in [-n, n] *)
+Definition win (n : nat) (f : Z -> R) : R := rsum (- Z.of_nat n) (2 * n + 1) f.
+
+(* ---- norms ---- *)
+Definition norm2 (s : sm Cops) : R := win (nstate s) (fun k => wnorm2 (get Cops s k)).
+
+Definition code_norm2 (s : sm Cops) : R :=
+  win (nstate s) (fun k => cnorm2 (fm (get Cops s k)) + cnorm2 (fz (get Cops s k))).
+
+(* deviation from equilibrium, state by state *)
+Definition dev (s : sm Cops) (k : Z) : triple Cops := tsub (get Cops s k) (gete Cops s k).
+Definition dev2 (s : sm Cops) : R := win (nstate s) (fun k => wnorm2 (dev s k)).
+
+(* the three partial sums *)
+Definition tp2 (s : sm Cops) : R := win (nstate s) (fun k => cnorm2 (fp (get Cops s k))).
+Definition tm2 (s : sm Cops) : R := win (nstate s) (fun k => cnorm2 (fm (get Cops s k))).
+Definition zz2 (s : sm Cops) : R := win (nstate s) (fun k => cnorm2 (fz (get Cops s k))).
+
+(* ---- operators with the generated coefficient arrays ---- *)
+Definition op_T (alpha phi : R) : op Cops := OMatrix (T_op alpha phi) None.
+Definition op_Phi (phi : R) : op Cops := OMatrix (Phi_op phi) None.
+Definition op_P (tau g : R) : op Cops := OScalar (fst (P_op tau g)) (snd (P_op tau g)).
+Definition op_E (tau T1 T2 g : R) : op Cops := OScalar (fst (E_op tau T1 T2 g)) (snd (E_op tau T1 T2 g)).
+
+(* diffusion, abstract form: D._apply with real attenuation factors aT(k) (transverse) and aL(k)
+   (longitudinal) per phase state: F+(k) <- aT(k) F+(k), Z(k) <- aL(k) Z(k), F-(k) <- conj F+(-k) (updated) *)
+Definition apply_atten (aT aL : Z -> R) (s : sm Cops) : sm Cops :=
+  @d_apply Cops (fun k => RtoC (aT k)) (fun k => RtoC (aL k)) s.
+
+(* programs of real operators covered by the signal bound *)
+Inductive rop : Type :=
+| RT (alpha phi : R)              (* epg.T(alpha, phi) *)
+| RPhi (phi : R)                  (* epg.Phi(phi) *)
+| RP (tau g : R)                  (* epg.P(tau, g) *)
+| RE (tau T1 T2 g : R)            (* epg.E(tau, T1, T2, g) *)
+| RS (d : Z)                      (* epg.S(d), no nmax / max_nstate *)
+| RSpoil                          (* epg.SPOILER *)
+| RReset                          (* epg.RESET *)
+| RWait                           (* epg.Wait / ADC / probes *)
+| RD (aT aL : Z -> R).            (* epg.D(tau, D, k): factors exp(-bT:D), exp(-bL:D) per state *)
+
+Definition rapply (o : rop) (s : sm Cops) : sm Cops :=
+  match o with
+  | RT a p => apply (op_T a p) s
+  | RPhi p => apply (op_Phi p) s
+  | RP tau g => apply (op_P tau g) s
+  | RE tau T1 T2 g => apply (op_E tau T1 T2 g) s
+  | RS d => apply (OShift d None) s
+  | RSpoil => apply OSpoil s
+  | RReset => apply OReset s
+  | RWait => s
+  | RD aT aL => apply_atten aT aL s
+  end.
+
+Definition rrun (ops : list rop) (s : sm Cops) : sm Cops := fold_left (fun s o => rapply o s) ops s.
+
+(* side conditions: physical relaxation with T2 <= 2 T1, attenuation factors in [0,1], longitudinal factor even in k *)
+Definition rvalid (o : rop) : Prop :=
+  match o with
+  | RE tau T1 T2 g => 0 <= tau /\ 0 < T1 /\ 0 < T2 /\ T2 <= 2 * T1
+  | RD aT aL => (forall k, 0 <= aT k <= 1) /\ (forall k, 0 <= aL k <= 1) /\ (forall k, aL (- k)%Z = aL k)
+  | _ => True
+  end.
+
+(* the invariant of the signal bound *)
+Definition bounded (PD : R) (s : sm Cops) : Prop :=
+  WfProof.wf Cops s /\ fz (gete Cops s 0) = RtoC PD /\ norm2 s <= PD * PD.
+
+(* ---- utils.get_norm on the array itself (generic scalars; executed at QIops against the implementation) ---- *)
+Definition sq2 {S : ScalOps} (x : triple S) : S := (fm x * kconj (fm x) + fz x * kconj (fz x))%K.
+Definition list_norm2 {S : ScalOps} (l : list (triple S)) : S := fold_right (fun x acc => (sq2 x + acc)%K) k0 l.
+
+(* observed float norm (exact rational) against the model: |obs^2 - N| <= tol (1 + N), N real *)
+From Coq Require Import QArith Qabs Qcanon.
+From EPG Require Import QI.
+Definition norm_obs_ok (tol obs : Qc) (l : list (triple QIops)) : bool :=
+  let N := @list_norm2 QIops l in
+  Qle_bool (Qabs (this (obs * obs - fst N)%Qc)) (this (tol * (Q2Qc 1 + fst N))%Qc) && Qeq_bool (this (snd N)) 0.
